@@ -254,7 +254,8 @@ def flat_layers_scene(rng, layers, nce=1, nt=40, step=15.0, names=None, jitter=0
     return {'rows': rows, 'names': list(names), 'order': order, 'fam': 'flat'}
 
 
-def bimodal_group_scene(rng, sep=None, n=None, order=None, nce=1, third=False, converge=False):
+def bimodal_group_scene(rng, sep=None, n=None, order=None, nce=1, third=False, converge=False,
+                        coincident=False):
     """One thick group whose heights are bi- (tri-) modal: engages the mixture model."""
     n = int(n or rng.integers(45, 100))
     sep = float(sep or rng.choice([300, 400, 600, 800]))
@@ -262,7 +263,7 @@ def bimodal_group_scene(rng, sep=None, n=None, order=None, nce=1, third=False, c
     rows = []
     for ci, c in enumerate(names):
         for t in range(n):
-            dt = -t * 15.0 - ci * 0.5
+            dt = -t * 15.0 - (0.0 if coincident else ci * 0.5)
             hs = []
             if rng.uniform() < 0.85:
                 hs.append(2000 + rng.normal(0, 40))
@@ -282,6 +283,47 @@ def bimodal_group_scene(rng, sep=None, n=None, order=None, nce=1, third=False, c
         order = str(rng.choice(ORDERS))
     rows = order_rows(rng, dedupe(rows), order)
     return {'rows': rows, 'names': names, 'order': order, 'fam': 'bimodal'}
+
+
+def tie_cut_scene(rng, order=None):
+    """Several ceilometers reporting at the very same times; two thin decks about one minimum
+    separation (100 ft) apart, one of them seen by two instruments.  A single outlying hit sits in
+    the time step where the look-back window of its deck begins, and the window holds an odd number
+    of hits, so the cut falls inside the pair of simultaneous hits: whether the outlier counts
+    depends on the order given to simultaneous hits.  Decision-time and report-time computations of
+    the base must agree on it, whatever the row order."""
+    nt = int(rng.integers(40, 80))
+    two_low = bool(rng.integers(0, 2))                 # which deck is seen by two ceilometers
+    names = ['C0', 'C1', 'C2']
+    gap = float(rng.uniform(78, 128))
+    jit = int(rng.choice([5, 8, 10]))
+    n2 = 2 * nt
+    # look-back such that k = int(n2*L/100) is odd
+    L = None
+    for _ in range(50):
+        cand = float(rng.choice([41, 50, 33.3, 21, 75, 11, 63]) + rng.integers(0, 3))
+        if int(n2 * cand / 100) % 2 == 1:
+            L = cand
+            break
+    if L is None:
+        L = 41.0
+    k = int(n2 * L / 100)
+    t_cut = nt - (k + 1) // 2                          # time step split by the cut
+    out_off = -float(jit + rng.choice([15, 20, 30]))
+    rows = []
+    for t in range(nt):
+        dt = -900.0 + 15.0 * t
+        for ci, c in enumerate(names):
+            low = (ci < 2) if two_low else (ci < 1)
+            h = (1000.0 if low else 1000.0 + gap) + float(rng.integers(-jit, jit + 1))
+            in_pair = (ci < 2) if two_low else (ci >= 1)
+            if t == t_cut and in_pair and c == (names[0] if two_low else names[1]):
+                h += out_off
+            rows.append([c, dt, h, 1])
+    if order is None:
+        order = str(rng.choice(ORDERS))
+    rows = order_rows(rng, rows, order)
+    return {'rows': rows, 'names': names, 'order': order, 'fam': 'tiecut', 'lookback': L}
 
 
 def close_chain_scene(rng, nl=None, order=None, nce=None):
